@@ -181,15 +181,25 @@ type c30Case struct {
 	SwapCA bool `json:"swap_ca,omitempty"`
 }
 
-var c30Versions = []uint16{0, tls.VersionTLS10, tls.VersionTLS11, tls.VersionTLS12, tls.VersionTLS13}
+// (indices 5..8: values that name no TLS version - SSL 3.0, 1, just below TLS 1.0, just above TLS 1.3; clients only use 1..4)
+var c30Versions = []uint16{0, tls.VersionTLS10, tls.VersionTLS11, tls.VersionTLS12, tls.VersionTLS13, 0x0300, 1, 0x02ff, 0x0305}
 
 func genC30(t *rapid.T) c30Case {
 	c := c30Case{MinV: rapid.IntRange(0, 4).Draw(t, "min"), MaxV: rapid.IntRange(0, 4).Draw(t, "max"), ClientAuth: rapid.IntRange(0, 4).Draw(t, "auth"),
 		CA: pick(t, "ca", 0, 1, 1, 1, 2), Ciphers: rapid.IntRange(0, 3).Draw(t, "ciphers"), Rotate: rapid.IntRange(0, 2).Draw(t, "rotate") == 0,
 		PreUpdate: pick(t, "preupdate", "", "", "export", "export2", "tuning"), SwapCA: rapid.IntRange(0, 2).Draw(t, "swapca") == 0}
-	if rapid.Bool().Draw(t, "sane") {
+	if rapid.IntRange(0, 4).Draw(t, "oddmin") == 0 {
+		c.MinV = rapid.IntRange(5, 8).Draw(t, "oddminv")
+	}
+	if rapid.IntRange(0, 9).Draw(t, "oddmax") == 0 {
+		c.MaxV = rapid.IntRange(5, 8).Draw(t, "oddmaxv")
+	} else if rapid.Bool().Draw(t, "sane") {
 		// bias towards configurations the server accepts
-		c.MinV, c.MaxV = pick(t, "smin", 0, 3, 3, 4), pick(t, "smax", 0, 3, 4, 4)
+		smin, smax := pick(t, "smin", 0, 3, 3, 4), pick(t, "smax", 0, 3, 4, 4)
+		if c.MinV < 5 {
+			c.MinV = smin
+		}
+		c.MaxV = smax
 	}
 	n := rapid.IntRange(2, 6).Draw(t, "n")
 	for i := 0; i < n; i++ {
